@@ -246,9 +246,31 @@ func ZZ_C02_HeaderHashIgnoresSigs() {
 	zzsym.Cover("header-hash")
 }
 
+// Arbitrary short input to the header decoder: every buffer of up to B bytes (symbolic length and content).
 func ZZ_C02_HeaderDecodeNoPanic() {
 	B := zzsym.Param("B")
 	buf := zzsym.BytesUpTo("buf", B)
+	h, err := HeaderFromRawBytes(buf)
+	if err == nil {
+		zzsym.Assert(h != nil, "decoded header")
+		zzsym.Cover("decoded")
+	} else {
+		zzsym.Cover("rejected")
+	}
+}
+
+// The variable part of a header: 156 arbitrary bytes for the ten fixed-width fields (they cannot fail once
+// present), a consensus payload of P arbitrary bytes behind its one-byte length prefix (P enumerated, the prefix
+// byte concrete so that all later offsets are concrete), 20 arbitrary bytes for the next bookkeeper, and then an
+// arbitrary tail of every length 0..T: bookkeeper count (any var-uint size, any value), keys, signature count,
+// signatures - whatever the solver makes of it.
+func ZZ_C02_HeaderTailNoPanic() {
+	plen := zzsym.Choose("payload-len", zzsym.Param("P")+1)
+	buf := append([]byte(nil), zzsym.Bytes("fixed", 156)...)
+	buf = append(buf, byte(plen))
+	buf = append(buf, zzsym.Bytes("payload", plen)...)
+	buf = append(buf, zzsym.Bytes("nextbookkeeper", 20)...)
+	buf = append(buf, zzsym.BytesChoose("tail", zzsym.Param("T"))...)
 	h, err := HeaderFromRawBytes(buf)
 	if err == nil {
 		zzsym.Assert(h != nil, "decoded header")
